@@ -6,6 +6,15 @@ extern crate alloc;
 
 pub mod common;
 pub mod c01;
+pub mod c02;
+pub mod c03;
+pub mod c04;
 pub mod c05;
 pub mod c06;
 pub mod c07;
+pub mod c09;
+pub mod c12;
+pub mod c13;
+pub mod c14;
+pub mod c15;
+pub mod c16;
